@@ -302,9 +302,14 @@ def eval_bin(ctx, cplx, case, corr):
         X, Y = Z(x0), Z(y0)
         want = ref(X, Y)
         scale = bound(X, Y)
-        req_value(ctx, case, fn, kind, val, want, scale, rtol=(1e-5 if f32 else 1e-9))
+        if kind != 0 and case.get("value_or_reject"):
+            ctx.count("%s: undocumented broadcast form rejected (allowed)" % fn)
+        else:
+            req_value(ctx, case, fn, kind, val, want, scale, rtol=(1e-5 if f32 else 1e-9))
     unchanged(ctx, case, fn, [(x, x0), (y, y0)])
     ctx.count("err:" + kname(kind))
+    if kind != 0 and case.get("value_or_reject"):
+        return
     if not corr or not modelable(x0, y0):
         return
     if fn == "matmul" and not (x0.dim() == 3 and y0.dim() in (2, 3)):
@@ -358,18 +363,38 @@ def eval_make_complex(ctx, cplx, case, corr):
     elif form == "single":
         kind, val = impl(lambda: cplx.make_complex(x))
     else:
-        arr = np.asarray(x.numpy().astype(np.float64) + 1j * y.numpy().astype(np.float64))   # 0-d stays an ndarray
+        npd = case.get("np_dtype", "complex128")
+        if npd in ("complex128", "complex64"):
+            arr = np.asarray(x.numpy().astype(np.float64) + 1j * y.numpy().astype(np.float64))   # 0-d stays an ndarray
+            arr = np.asarray(arr.astype(npd))
+        else:                                             # a REAL array: x + 0i  (x.real is x, x.imag is 0)
+            arr = np.asarray(x.numpy().astype(np.float64).astype(npd))
         if case.get("transposed") and arr.ndim >= 2:
             arr = np.swapaxes(arr, 0, 1)                  # a non-contiguous numpy view as input
+        arr_before = arr.copy()
         kind, val = impl(lambda: cplx.make_complex(arr))
+        ctx.count("make_complex(ndarray):" + npd)
     expect = case.get("expect")
     if expect:
         req_error(ctx, case, "make_complex", kind, val, expect)
-    else:
-        if form == "numpy":
-            want = arr
+    elif form == "numpy":
+        want = arr_before.astype(np.complex128)
+        in_quantifier = case.get("np_dtype", "complex128") in ("complex128", "float64")
+        if kind != 0 and not in_quantifier:
+            ctx.count("make_complex(ndarray of a non-float64 dtype) rejected (allowed: outside 'float64 operands')")
         else:
-            want = x0.numpy() + 1j * (y.numpy() if y is not None else np.zeros_like(x0.numpy()))
+            req_value(ctx, case, "make_complex", kind, val, want, 0.0,
+                      rtol=(1e-6 if case.get("np_dtype") == "complex64" else 1e-9))
+        ctx.require("make_complex leaves the numpy input unchanged", bool(np.array_equal(arr, arr_before)), case)
+        if kind == 0 and isinstance(val, torch.Tensor) and arr.size:
+            # the result is a value: a later write to the caller's array must not change it
+            snap = val.clone()
+            arr += np.asarray(1, dtype=arr.dtype)
+            ctx.require("make_complex(ndarray) result does not alias the input array", bool(torch.equal(val, snap)), case,
+                        "writing to the input array afterwards changed the returned tensor")
+            arr[...] = arr_before
+    else:
+        want = x0.numpy() + 1j * (y.numpy() if y is not None else np.zeros_like(x0.numpy()))
         req_value(ctx, case, "make_complex", kind, val, want, 0.0)
     ctx.count("err:" + kname(kind))
     if not corr or not modelable(x0) or (y is not None and not modelable(y)):
@@ -380,7 +405,11 @@ def eval_make_complex(ctx, cplx, case, corr):
             corr_value(ctx, case, "make_complex(x)", val, m.call("c15_make_complex_real", x0), 1.0)
         return
     if form == "numpy":
-        corr_res(ctx, case, "make_complex(ndarray)", kind, val, m.call("c15_make_complex", arr.real, arr.imag), 1.0)
+        if kind != 0 and case.get("np_dtype", "complex128") not in ("complex128", "float64"):
+            return
+        tol = {"rtol": 1e-5, "atol": 1e-6} if case.get("np_dtype") == "complex64" else {}
+        a64 = arr_before.astype(np.complex128)
+        corr_res(ctx, case, "make_complex(ndarray)", kind, val, m.call("c15_make_complex", a64.real, a64.imag), 1.0, **tol)
     else:
         corr_res(ctx, case, "make_complex", kind, val, m.call("c15_make_complex", x0, y), 1.0)
 
@@ -590,7 +619,8 @@ def eval_case(ctx, case, corr=True, shape_flag=True):
     elif nontriv:
         nontriv = "y" in case and bool(np.any(np.asarray(common.flat(case["y"])) != 0))
     opts = {k: case[k] for k in ("form", "out", "eq", "real_part", "imag_part", "expect", "x_is_I", "y_is_I", "transposed",
-                                 "x_layout", "y_layout", "out_layout", "out_shape", "extreme_magnitude", "wide_magnitude")
+                                 "x_layout", "y_layout", "out_layout", "out_shape", "extreme_magnitude", "wide_magnitude", "np_dtype",
+                                 "value_or_reject", "degenerate")
             if k in case}
     for k in ("x_layout", "y_layout", "out_layout"):
         if case.get(k):
@@ -954,7 +984,122 @@ def g_extreme(ctx, n):
         yield c, True
 
 
+def zc(shape):
+    return np.zeros(tuple(shape), dtype=np.complex128)
+
+
+def g_blindspots(ctx, n):
+    """fixed cases that always run first (red-team classes): numpy inputs of other dtypes, broadcast batch dimensions
+    of matmul, every broadcast pair through scalar_divide, all-zero / single-element / partly-zero operands"""
+    # (1) make_complex(ndarray): real float64, int64, complex64, complex128; 0-d, vector, matrix
+    for npd in ("float64", "complex128", "int64", "complex64"):
+        for shp in [(), (1,), (3,), (2, 3)]:
+            x, y = rv(ctx, shp, kind="uniform") * 3.0, rv(ctx, shp, kind="uniform")
+            c = put(put({"fn": "make_complex", "form": "numpy", "np_dtype": npd}, "x", R(x)), "y", R(y))
+            yield c, npd != "float64" and npd != "int64"
+    # (2) matmul with broadcast batch dimensions (numpy's @ has torch.matmul's rule)
+    bm = [((1, 2, 3), (4, 3, 2)), ((4, 2, 3), (1, 3, 2)), ((2, 3), (4, 3, 2)), ((4, 2, 3), (3, 2)), ((1, 2, 3), (1, 3, 2)),
+          ((2, 1, 2, 3), (3, 3, 2)), ((3, 2, 3), (2, 1, 3, 4)), ((2, 2, 3), (3,)), ((1, 1, 1), (3, 1, 1)), ((5, 1, 4), (1, 4, 1))]
+    for sx, sy in bm:
+        yield ccase("matmul", rc(ctx, sx), rc(ctx, sy)), True
+    # (3) scalar_divide on every broadcast pair scalar_mult accepts: the right quotient, or a rejection
+    for sx, sy in BCAST_PAIRS:
+        doc = (sx == sy) or sy == ()
+        yield ccase("scalar_divide", rc(ctx, sx), rc(ctx, sy, nz=True), **({} if doc else {"value_or_reject": True})), True
+    # (4) degenerate values: all-zero operands, single elements, exact zeros in some entries
+    un = ["numpy", "real", "imag", "conj", "conjugate", "absolute_value"]
+    for shp in [(), (1,), (3,), (2, 3), (1, 1), (2, 1, 2)]:
+        for fn in un:
+            yield ccase(fn, zc(shp), degenerate="zero"), False
+        for fn in ("scalar_mult", "elementwise_mult"):
+            yield ccase(fn, zc(shp), zc(shp), degenerate="zero"), False
+            yield ccase(fn, zc(shp), rc(ctx, shp), degenerate="zero"), False
+        for fn in ("elementwise_division", "scalar_divide"):
+            yield ccase(fn, zc(shp), rc(ctx, shp, nz=True), degenerate="zero numerator"), False
+        yield ccase("scalar_divide", zc(shp), rc(ctx, (), nz=True), degenerate="zero numerator"), False
+        yield ccase("scalar_mult", zc(shp), zc(shp), out="fresh", fill=3.25, degenerate="zero"), False
+        c = put(put({"fn": "make_complex", "form": "pair", "degenerate": "zero"}, "x", R(np.zeros(shp))), "y", R(np.zeros(shp)))
+        yield c, False
+        c = put(put({"fn": "make_complex", "form": "numpy", "degenerate": "zero"}, "x", R(np.zeros(shp))), "y", R(np.zeros(shp)))
+        yield c, False
+        yield put(put({"fn": "sigmoid", "degenerate": "zero"}, "x", R(np.zeros(shp))), "y", R(np.zeros(shp))), False
+    for k in (1, 2, 3, 5):
+        for fn in ("norm", "norm_sqr"):
+            yield ccase(fn, zc((k,)), degenerate="zero"), False
+        yield ccase("inner_prod", zc((k,)), zc((k,)), degenerate="zero"), False
+        yield ccase("inner_prod", zc((k,)), rc(ctx, (k,)), degenerate="zero"), False
+        yield ccase("outer_prod", zc((k,)), rc(ctx, (2,)), degenerate="zero"), False
+        yield ccase("matmul", zc((2, k)), rc(ctx, (k, 3)), degenerate="zero"), False
+        yield ccase("matmul", zc((2, k)), zc((k,)), degenerate="zero"), False
+        yield ccase("kronecker_prod", zc((k, 2)), rc(ctx, (2, k)), degenerate="zero"), False
+        yield ccase("einsum", zc((k,)), rc(ctx, (k, 2)), eq="b,bg->g", real_part=True, imag_part=True, degenerate="zero"), False
+    for fn in ("norm", "norm_sqr"):
+        yield ccase(fn, zc(()), degenerate="zero"), False
+    yield ccase("inner_prod", zc(()), zc(()), degenerate="zero"), False
+    # single elements and operands with exact zeros in some entries (zero real part, zero imaginary part, zero entry)
+    for d in range(max(2, n // 2)):
+        v = rc(ctx, (4,), kind="uniform")
+        v[0] = 0.0
+        v[1] = v[1].real
+        v[2] = 1j * v[2].imag
+        w = rc(ctx, (4,), nz=True, kind="uniform")
+        for fn in ("absolute_value", "conj", "norm", "norm_sqr"):
+            yield ccase(fn, v, degenerate="partly zero"), True
+        for fn in ("scalar_mult", "inner_prod", "elementwise_division"):
+            yield ccase(fn, v, w, degenerate="partly zero"), True
+        yield ccase("inner_prod", w, v, degenerate="partly zero"), True
+        yield ccase("outer_prod", v, w, degenerate="partly zero"), True
+        yield ccase("matmul", v.reshape(2, 2), w.reshape(2, 2), degenerate="partly zero"), True
+        yield ccase("kronecker_prod", v.reshape(1, 4), w.reshape(2, 2), degenerate="partly zero"), True
+        for shp in [(1,), (1, 1)]:
+            a, b = rc(ctx, shp, nz=True, kind="uniform"), rc(ctx, shp, nz=True, kind="uniform")
+            for fn in ("scalar_mult", "elementwise_division", "scalar_divide"):
+                yield ccase(fn, a, b, degenerate="single element"), True
+            yield ccase("inverse", a, degenerate="single element"), True
+            yield ccase("absolute_value", a, degenerate="single element"), True
+        yield ccase("norm", rc(ctx, (1,)), degenerate="single element"), True
+        yield ccase("matmul", rc(ctx, (1, 1)), rc(ctx, (1, 1)), degenerate="single element"), False
+        yield ccase("kronecker_prod", rc(ctx, (1, 1)), rc(ctx, (1, 1)), degenerate="single element"), False
+
+
+def g_batched(ctx, n):
+    """random streams for the same classes: batch shapes of matmul with size-1 / missing batch dimensions on either side,
+    scalar_divide over random broadcast pairs, numpy inputs of several dtypes, operands that are zero with probability"""
+    rng = ctx.rng
+    for d in range(6 * n):
+        batch = rshape(ctx, int(rng.integers(1, 3)))
+        a, k, b = (int(v) for v in rng.integers(1, 4, size=3))
+        sides = []
+        for i in range(2):
+            r = int(rng.integers(0, len(batch) + 1))
+            sides.append(tuple(1 if rng.random() < 0.35 else v for v in batch[len(batch) - r:]))
+        if not sides[0] and not sides[1]:
+            sides[int(rng.integers(0, 2))] = tuple(batch)
+        yield ccase("matmul", rc(ctx, sides[0] + (a, k)), rc(ctx, sides[1] + (k, b))), True
+    for d in range(6 * n):
+        sx, sy = rand_bcast_pair(ctx)
+        doc = (sx == sy) or sy == ()
+        yield ccase("scalar_divide", rc(ctx, sx), rc(ctx, sy, nz=True), **({} if doc else {"value_or_reject": True})), True
+    for d in range(3 * n):
+        shp = rshape(ctx, int(rng.integers(0, 4)))
+        npd = ["float64", "complex128", "int64", "complex64"][d % 4]
+        c = put(put({"fn": "make_complex", "form": "numpy", "np_dtype": npd}, "x", R(rv(ctx, shp) * 2.0)), "y", R(rv(ctx, shp)))
+        yield c, True
+    for d in range(3 * n):
+        shp = rshape(ctx, int(rng.integers(0, 3)))
+        zx = zc(shp) if rng.random() < 0.5 else rc(ctx, shp, kind="zeros")
+        fn = ["absolute_value", "conj", "scalar_mult", "elementwise_division", "norm"][d % 5]
+        if fn == "norm":
+            yield ccase(fn, zc((int(rng.integers(1, 6)),)), degenerate="zero"), False
+        elif fn in ("scalar_mult", "elementwise_division"):
+            yield ccase(fn, zx, rc(ctx, shp, nz=True), degenerate="zero"), False
+        else:
+            yield ccase(fn, zx, degenerate="zero"), False
+
+
 GENERATORS = [
+    ("blind-spot classes (fixed, first)", g_blindspots),
+    ("blind-spot classes (random)", g_batched),
     ("make_complex", g_make_complex),
     ("numpy/real/imag", g_unary(["numpy", "real", "imag"])),
     ("conj/conjugate/absolute_value", g_unary(["conj", "conjugate", "absolute_value"])),
